@@ -101,6 +101,13 @@ def gen_case(r, flavour):
         if r.chance(45):
             cur = r.below(nt)
         sched.append(cur)
+    # waits may also end without a notification: token 1000 + w = the timed wait of thread w times out now,
+    # token 2000 + w = the wait of thread w wakes up spuriously (both are no-ops when they do not apply)
+    if flavour == 'wait' and r.chance(40):
+        waiters = [i for i, th in enumerate(threads) if any(c[0] in ('wait', 'waitfor') for c in th)]
+        for _ in range(r.range(1, 3)):
+            if waiters:
+                sched.insert(r.below(len(sched) + 1), r.pick([1000, 2000, 2000]) + r.pick(waiters))
     return {'threads': threads, 'schedule': sched}
 
 
@@ -255,6 +262,16 @@ def correspond(ctx, binary, cases, what, driver='qconc', monitors=None, fifo=Fal
         if a != b:
             stats['disagreements'] += 1
         bad.append((0 if probs else 1, int(i), probs))
+    # how many schedules carry a wake-up without notification (tokens 1000 + w / 2000 + w), and on how many of them the token
+    # changed the run (model trace with the tokens against the model trace without them)
+    tok = [i for i in ids if any(x >= 1000 for x in cases[int(i)]['schedule'])]
+    stats['with_unnotified_wake_tokens'] = len(tok)
+    if tok:
+        bare = vlib.run_model('run', ''.join(case_text(i, {'threads': cases[int(i)]['threads'], 'schedule': [x for x in cases[int(i)]['schedule'] if x < 1000]})
+                                             for i in tok), driver=driver)
+        stats['unnotified_wake_changed_the_run'] = sum(1 for i in tok if bare.get(i, []) != model.get(i, []))
+    else:
+        stats['unnotified_wake_changed_the_run'] = 0
     reported = 0
     for _, k, probs in sorted(bad):
         i = str(k)
